@@ -21,6 +21,12 @@ for line in new.stdout.splitlines():
     if k not in known:
         known[k] = v
         added += 1
+    else:
+        have = known[k].setdefault("clauses", [])
+        for c in v.get("clauses", []):
+            if c not in have:
+                have.append(c)
+                added += 1
 with open(path, "w") as f:
     for h in head:
         f.write(h + "\n")
